@@ -285,15 +285,27 @@ Proof.
     destruct (dec_truncate_int (fee * t) <? 0) eqn:E1; [lia|].
     repeat match goal with |- context [if ?c then _ else _] => destruct c end; discriminate.
   - (* end blocker: slashing of the bindings whose requests expired *)
-    simpl in Hwf. induction deps as [|d deps IH]; [discriminate|].
-    inversion Hwf as [|? ? Hd0 Hrest]; subst.
-    cbn [sv_blocks].
-    assert (Hw0 : sv_slash_why p d = 0).
-    { unfold sv_slash_why. rewrite Hs. cbv zeta. rewrite dec_mul_of_int.
+    simpl in Hwf. unfold sv_blocks.
+    assert (Hstep : forall d, 0 <= d < two255 -> sv_slash_why p d = 0 /\ 0 <= d - sv_slashed p d < two255).
+    { intros d Hd0. unfold sv_slash_why, sv_slashed. rewrite Hs. cbv zeta. rewrite dec_mul_of_int.
       rewrite (dec_ok_small (d * s)) by (apply mul_rate_bounds; lia). cbn [negb]. rewrite Hd. cbn [negb].
-      pose proof (tax_bounds d s ltac:(lia) ltac:(lia)) as [Hq0 _].
-      destruct (dec_truncate_int (d * s) <? 0) eqn:E1; [lia|reflexivity]. }
-    rewrite Hw0. change (0 =? 0) with true. cbv iota. exact (IH Hrest).
+      pose proof (tax_bounds d s ltac:(lia) ltac:(lia)) as [Hq0 Hq1].
+      destruct (dec_truncate_int (d * s) <? 0) eqn:E1; [lia|].
+      destruct (d <? dec_truncate_int (d * s)) eqn:E2; split; try reflexivity; lia. }
+    assert (Hgen : forall rq cur,
+               Forall (fun r => 0 <= snd r < two255) rq ->
+               (forall pv d, get pv cur = Some d -> 0 <= d < two255) ->
+               sv_blocks_from p cur rq <> Panic w).
+    { induction rq as [|[pv d0] rest IH]; intros cur HF Hinv; [discriminate|].
+      inversion HF as [|? ? Hd0 Hrest]; subst. simpl in Hd0. cbn [sv_blocks_from].
+      assert (Hdr : 0 <= match get pv cur with Some d => d | None => d0 end < two255).
+      { destruct (get pv cur) as [d|] eqn:Eg; [exact (Hinv pv d Eg)|exact Hd0]. }
+      destruct (Hstep _ Hdr) as [Hw0 Hnew]. cbv zeta. rewrite Hw0. change (0 =? 0) with true. cbv iota.
+      apply IH; [exact Hrest|].
+      intros pv' d' Hg. destruct (Z.eq_dec pv' pv) as [->|Hne].
+      - rewrite get_set_same in Hg. injection Hg as <-. exact Hnew.
+      - rewrite get_set_other in Hg by exact Hne. exact (Hinv pv' d' Hg). }
+    apply Hgen; [exact Hwf|]. intros pv d Hg. discriminate Hg.
   - (* update binding *)
     unfold sv_update. simpl in Hwf. cbv zeta.
     destruct (sv_deposit_enough_ok p price (dep + add) Hm Hwf) as [b ->].
